@@ -156,7 +156,7 @@ def sample(c, o):
 LEVEL_TEXT = ('Coq proof for the "all duration settings" half of the quantifier, per constructor input: a symbolic scheduler computes the listing of a relation graph once, '
               'with starts and ends as max-plus forms over R, M, F, S and the decoupling wait W; it is proved equal to the model\'s scheduler (Core/Model.v times / ext_of / '
               'listing_op, nested blocks and multi-links included) for every setting with non-negative globals and R - M even (C10_symbolic_listing_sound); a decidable order '
-              'on forms (uses only R, M, F, S, W >= 0 and 2W + M >= R) is proved sound (C10_mp_le_sound); hence one vm_compute evaluation of cert_no_overlap on a graph proves '
+              'on forms (uses only R, M, F, S, W >= 0, 2W + M >= R and 2W <= R) is proved sound (C10_mp_le_sound); hence one vm_compute evaluation of cert_no_overlap on a graph proves '
               'that no two channel-sharing operations of non-zero length overlap and nothing - zero-length operations included - sits inside a barrier under EVERY such setting, as constructed '
               '(C10_certified) and after unrolling (C10_certified_unrolled, using that unrolling is setting-independent). The certificate is evaluated on the relation graph '
               'extracted from every generated library circuit and is part of the tie, so each passing case is a theorem instance over all settings '
